@@ -3,11 +3,25 @@ open Igris.Proto Igris.C18
 
 def bvOf (w : Nat) (s : String) : Option (BitVec w) := (parseHexNat? s).map (BitVec.ofNat w)
 
+def optHex : Option (List Byte) → String
+  | some r => bytesHex r
+  | none => "fault"
+
 def stepLine (_ : Unit) (line : String) : Unit × String :=
   let r : Option String :=
     match words line with
     | ["reset"] => some "ok"
     | ["alpha"] => some (bytesHex charset)
+    | ["maxsz"] => some (hexOfNat 16 strMaxSize)
+    | ["hbyte", hi, lo] => do
+        let h ← bvOf 8 hi; let l ← bvOf 8 lo
+        pure (byteHex (hex2byte h l))
+    | ["hdecm", size, cap, arg] => do
+        let m ← parseBytes? arg; let sz ← parseInt? size; let c ← parseInt? cap
+        pure (optHex (hexDecodeM m sz c.toNat))
+    | ["hthrow", size] => do
+        let n ← parseHexNat? size
+        pure (if hexEncodeStrThrows n then "length_error" else "returns")
     | [op, arg] => do
         match op with
         | "half" => do let n ← bvOf 8 arg; pure (byteHex (half2hex n))
@@ -17,7 +31,7 @@ def stepLine (_ : Unit) (line : String) : Unit × String :=
             pure (bytesHex (hexEncode m) ++ " " ++ bytesHex (hexEncodeStr m))
         | "hdec" => do
             let m ← parseBytes? arg
-            pure (bytesHex (hexDecode m) ++ " " ++ bytesHex (hexDecodeStr m))
+            pure (optHex (hexDecodeM m m.length (m.length / 2)) ++ " " ++ optHex (hexDecodeStrM m))
         | "u8" => do
             let v ← bvOf 8 arg; let t := uint8ToHex v
             pure (bytesHex t ++ " " ++ hexOfNat 2 (hexToUint8 t).toNat)
@@ -43,9 +57,9 @@ def stepLine (_ : Unit) (line : String) : Unit × String :=
             let t ← parseBytes? arg; let v := hexToUint64 t
             pure (hexOfNat 16 v.toNat ++ " " ++ bytesHex (uint64ToHex v))
         | "benc" => do let m ← parseBytes? arg; pure (bytesHex (b64Encode m))
-        | "bdec" => do let m ← parseBytes? arg; pure (bytesHex (b64Decode m))
+        | "bdec" => do let m ← parseBytes? arg; pure (optHex (b64DecodeM m))
         | "buenc" => do let m ← parseBytes? arg; pure (bytesHex (b64urlEncode m))
-        | "budec" => do let m ← parseBytes? arg; pure (bytesHex (b64urlDecode m))
+        | "budec" => do let m ← parseBytes? arg; pure (optHex (b64urlDecodeM m))
         | _ => none
     | _ => none
   ((), r.getD "bad-op")
